@@ -223,6 +223,14 @@ func (s *Session) changeState(state LogonState, isEventTriggerRequired bool) {
 	}
 }
 
+// currentState returns the logon state; changeState writes it under the same mutex.
+func (s *Session) currentState() LogonState {
+	s.stateMu.RLock()
+	defer s.stateMu.RUnlock()
+
+	return s.state
+}
+
 func (s *Session) checkLogonParams(incoming messages.LogonBuilder) (ok bool, tag, reasonCode int) {
 	if _, ok := s.AllowedEncryptedMethods[incoming.EncryptMethod()]; !ok {
 		return false, s.Tags.EncryptedMethod, s.SessionErrorCodes.IncorrectValue
@@ -251,7 +259,7 @@ func (s *Session) setStorageCallbacks() {
 	})
 
 	s.Router.HandleIncoming(simplefixgo.AllMsgTypes, func(msg []byte) bool {
-		if s.state != WaitingLogonAnswer && s.state != WaitingLogon {
+		if state := s.currentState(); state != WaitingLogonAnswer && state != WaitingLogon {
 			seqNum, err := fix.ValueByTag(msg, strconv.Itoa(s.Tags.MsgSeqNum))
 			if err != nil {
 				return true
@@ -397,7 +405,7 @@ func (s *Session) Run() (err error) {
 			return true
 		}
 
-		switch s.state {
+		switch s.currentState() {
 		case WaitingLogon:
 			s.LogonSettings = &LogonSettings{
 				HeartBtInt:      incomingLogon.HeartBtInt(),
@@ -459,7 +467,7 @@ func (s *Session) Run() (err error) {
 			return true
 		}
 
-		switch s.state {
+		switch s.currentState() {
 		case WaitingLogoutAnswer:
 			s.changeState(ReceivedLogoutAnswer, true)
 			s.changeState(WaitingLogon, true)
@@ -494,7 +502,7 @@ func (s *Session) Run() (err error) {
 			return true
 		}
 
-		if s.state == WaitingTestReqAnswer {
+		if s.currentState() == WaitingTestReqAnswer {
 			// reset SuccessfulLogged statue without event trigger
 			s.changeState(SuccessfulLogged, false)
 		}
@@ -562,7 +570,7 @@ func (s *Session) start() error {
 
 	s.Router.HandleIncoming(simplefixgo.AllMsgTypes, func(msg []byte) bool {
 		incomingMsgTimer.Refresh()
-		if s.state == WaitingTestReqAnswer {
+		if s.currentState() == WaitingTestReqAnswer {
 			s.changeState(SuccessfulLogged, false)
 		}
 
@@ -585,7 +593,7 @@ func (s *Session) start() error {
 			default:
 			}
 
-			if s.state == WaitingTestReqAnswer {
+			if s.currentState() == WaitingTestReqAnswer {
 				s.changeState(Disconnect, true)
 				return
 			}
